@@ -536,8 +536,12 @@ def rule_bound(rep, F, cddl, aud):
             rep.lost("type %s not found" % adt)
             continue
         found_ctor = False
+        derived_json = False
         for fid, fn in F.fns.items():
-            if F.is_derived(fid) or "/tests/" in fn["file"]:
+            if "/tests/" in fn["file"]:
+                continue
+            # derived code copies valid values (Clone) - except a derived JSON reader, which builds the value from outside data
+            if F.is_derived(fid) and fn.get("derive") != "serde::Deserialize":
                 continue
             sites = []
             for bi, bb in enumerate(fn["bbs"]):
@@ -547,6 +551,12 @@ def rule_bound(rep, F, cddl, aud):
                     if st[1] == "=" and st[3][0] == "agg" and st[3][2] == adt and (variant is None or st[3][3] == variant):
                         sites.append(bi)
             if not sites:
+                continue
+            if F.is_derived(fid):
+                rep.inst("BOUND")
+                if not derived_json:
+                    derived_json = True
+                    rep.violation("BOUND", "%s|built-in|derive(serde::Deserialize)" % H.short(adt), "the derived JSON reader of %s builds the value directly, bypassing the validating constructor %s (CDDL bound %d): %s::from_json of a %d-byte string is accepted and to_bytes() then emits it" % (H.short(adt), ctors[0], bound, H.short(adt), bound + 72), {})
                 continue
             k = F.key(fid)
             for bi in sites:
